@@ -222,6 +222,13 @@ func (ce *CEnv) eval(e Expr) CVal {
 		return CVal{T: mkIte(c.T, a.T, b.T), Ty: a.Ty}
 	case *EIndex:
 		x := ce.eval(e.X)
+		if mt, ok := x.Ty.Underlying().(*types.Map); ok {
+			k := ce.eval(e.I)
+			if k.Ty == nil {
+				k = ce.coerce(k, mt.Key())
+			}
+			return ce.u.mapGet(ce.heap, x, k)
+		}
 		i := ce.coerceIdx(ce.eval(e.I))
 		return ce.index(x, i)
 	case *ESlice:
@@ -791,6 +798,12 @@ func (ce *CEnv) call(e *ECall) CVal {
 		region, es := ce.elemRegion(sl.Elem())
 		rowS := arraySort(bvSort(64), es)
 		return CVal{T: mk(rowS, "select", ce.u.heapGet(ce.heap, region), sBase(x.T)), Ty: types.NewArray(sl.Elem(), 0)}
+	case "sameBase":
+		a, b := ce.eval(e.Args[0]), ce.eval(e.Args[1])
+		if a.T.Sort != SSlice || b.T.Sort != SSlice {
+			efail("sameBase of non-slices")
+		}
+		return CVal{T: mkEq(sBase(a.T), sBase(b.T)), Ty: types.Typ[types.Bool]}
 	case "soff":
 		x := ce.eval(e.Args[0])
 		if x.T.Sort != SSlice {
